@@ -6,6 +6,7 @@ EXTENDS GQLCoerce
 
 CONSTANT D          \* menu depth: 2 = quick, 3 = thorough
 CONSTANT Wide       \* TRUE: additional product menus (thorough)
+CONSTANT Cat        \* which catalog schema: 1 or 2
 
 Scalar == [kind |-> "scalar"]
 Pad == [kind |-> "enum", values |-> <<"PADV">>, hidden |-> <<>>]
@@ -15,7 +16,7 @@ TInt == Named("Int")
 TStr == Named("String")
 TLeaf == Named("Leaf")
 
-Catalog == [
+Catalog1 == [
   Int |-> Scalar, Float |-> Scalar, String |-> Scalar, Boolean |-> Scalar, ID |-> Scalar,
   Blob |-> Scalar,                                            \* custom scalar
   Color |-> [kind |-> "enum", values |-> <<"EVA", "EVB">>, hidden |-> <<"EVHID">>],   \* EVHID @inaccessible
@@ -47,7 +48,7 @@ LL(a, b, c) == \* [[Int]] with the three non-null placements: a = item, b = inne
       o == IF c THEN NonNull(ListOf(l)) ELSE ListOf(l) IN o
 
 \* the variable types exercised; VarLits[i] = a valid default value literal for VarTypes[i] ("" = none)
-VarTypes == <<
+VarTypes1 == <<
   TInt, NonNull(TInt), Named("Float"), TStr, Named("Boolean"), Named("ID"), Named("Blob"),
   Named("Color"), NonNull(Named("Color")),
   ListOf(TInt), ListOf(NonNull(TInt)), NonNull(ListOf(TInt)), NonNull(ListOf(NonNull(TInt))),
@@ -58,7 +59,7 @@ VarTypes == <<
   Named("Lists"), NonNull(Named("Nest")), Named("Rec"), Named("Pick"), NonNull(ListOf(NonNull(Named("Pick")))),
   Named("Nest"), ListOf(Named("Shade")),
   ListOf(NonNull(Named("Boolean"))), ListOf(TStr), ListOf(Named("Float")) >>
-VarLits == <<
+VarLits1 == <<
   "7", "7", "7.5", "\"dv\"", "true", "\"dv\"", "\"dv\"",
   "EVA", "EVB",
   "[7]", "[7]", "[7]", "7",
@@ -69,16 +70,76 @@ VarLits == <<
   "{b: [7]}", "", "{v: 7}", "{a: 7}", "",
   "{leaf: {req: 7}}", "",
   "true", "[\"dv\"]", "" >>
+\* nullable variable with a default used at a Non-Null argument position (allowed by "Variables Are In Allowed Positions")
+NNPos1 == {1, 8, 10, 24}
+\* product menus (every field in {absent, null, good, bad})
+ProdTypes1 == IF Wide THEN {24, 27, 29, 30} ELSE {24}
+\* operations with several variables: indexes into VarTypes and the variable names.  The engine renames variables to
+\* canonical names (a, b, c ... in order of use), so "b","a" / "c","a","b" / "d","c","b","a" are permuted by the renaming.
+Multis1 == << [tix |-> <<2, 4>>, names |-> <<"b", "a">>], [tix |-> <<25, 11>>, names |-> <<"zeta", "alpha">>],
+              [tix |-> <<9, 2>>, names |-> <<"b", "a">>], [tix |-> <<2, 4, 9>>, names |-> <<"c", "a", "b">>],
+              [tix |-> <<11, 2, 4, 8>>, names |-> <<"d", "c", "b", "a">>] >>
+\* variables nested inside an argument literal: field(x: pre $x post)
+Hosts1 == << [tix |-> 2, field |-> "t24", pre |-> "{req: ", post |-> "}"],
+             [tix |-> 4, field |-> "t24", pre |-> "{req: 1, opt: ", post |-> "}"],
+             [tix |-> 11, field |-> "t27", pre |-> "{b: [1], a: ", post |-> "}"],
+             [tix |-> 8, field |-> "t32", pre |-> "{leaf: {req: 1}, color: ", post |-> "}"],
+             [tix |-> 25, field |-> "t32", pre |-> "{leaf: ", post |-> "}"],
+             [tix |-> 1, field |-> "t10", pre |-> "[1, ", post |-> "]"] >>
+\* duplicate names inside objects are generated for these variable types
+DupTypes1 == {24, 26, 30}
+
+\* ---------------------------------------------------------------- second catalog: structurally different
+\* deeper (mutual) recursion, a oneOf with list / input / custom-scalar members, enums inside lists inside inputs,
+\* a custom scalar at every nesting level, non-null-with-default everywhere (the minimal value of every input is {}).
+TNode == Named("Node")
+TBlob == Named("Blob")
+TColor == Named("Color")
+TInner == Named("Inner")
+Catalog2 == [
+  Int |-> Scalar, Float |-> Scalar, String |-> Scalar, Boolean |-> Scalar, ID |-> Scalar, Blob |-> Scalar,
+  Color |-> [kind |-> "enum", values |-> <<"EVA", "EVB">>, hidden |-> <<"EVHID">>],
+  Node |-> [kind |-> "input", oneOf |-> FALSE, fields |-> <<
+              FD("id", NonNull(Named("ID")), "\"n\""), F("meta", TBlob), F("child", TNode),
+              FD("kids", NonNull(ListOf(NonNull(TNode))), "[]"), FD("tags", NonNull(ListOf(NonNull(TColor))), "[EVA]"),
+              F("sel", Named("Sel"))>>],
+  Sel |-> [kind |-> "input", oneOf |-> TRUE, fields |-> <<
+              F("ids", ListOf(NonNull(Named("ID")))), F("node", TNode), F("blob", TBlob), F("colors", ListOf(TColor))>>],
+  Wrap |-> [kind |-> "input", oneOf |-> FALSE, fields |-> <<
+              FD("blob", NonNull(TBlob), "\"b\""), FD("inner", NonNull(TInner), "{n: 1}"),
+              FD("list", NonNull(ListOf(NonNull(TInner))), "[]"), F("deep", Named("Deep"))>>],
+  Inner |-> [kind |-> "input", oneOf |-> FALSE, fields |-> <<
+              FD("n", NonNull(TInt), "1"), F("blob", TBlob), FD("color", NonNull(TColor), "EVA"),
+              F("bb", ListOf(ListOf(NonNull(TBlob))))>>],
+  Deep |-> [kind |-> "input", oneOf |-> FALSE, fields |-> <<
+              F("wrap", Named("Wrap")), FD("inner", NonNull(TInner), "{}"), F("nodes", ListOf(ListOf(TNode)))>>]
+]
+VarTypes2 == <<
+  TNode, NonNull(TNode), ListOf(NonNull(TNode)), Named("Sel"), NonNull(ListOf(NonNull(Named("Sel")))),
+  Named("Wrap"), TInner, ListOf(ListOf(TInner)), Named("Deep"),
+  ListOf(NonNull(TBlob)), NonNull(TBlob), ListOf(NonNull(ListOf(NonNull(TColor)))), NonNull(Named("ID")) >>
+VarLits2 == <<
+  "{}", "{}", "[]", "{blob: 1}", "",
+  "{}", "{n: 2}", "", "{}",
+  "[1]", "\"b\"", "[[EVA]]", "\"i\"" >>
+NNPos2 == {1, 6}
+ProdTypes2 == {7}
+Multis2 == << [tix |-> <<13, 11, 2>>, names |-> <<"c", "a", "b">>] >>
+Hosts2 == << [tix |-> 13, field |-> "t1", pre |-> "{id: ", post |-> "}"],
+             [tix |-> 11, field |-> "t6", pre |-> "{blob: ", post |-> "}"],
+             [tix |-> 2, field |-> "t1", pre |-> "{sel: {colors: [EVA]}, child: {child: ", post |-> "}}"] >>
+DupTypes2 == {1, 7}
+
+Catalog == IF Cat = 1 THEN Catalog1 ELSE Catalog2
+VarTypes == IF Cat = 1 THEN VarTypes1 ELSE VarTypes2
+VarLits == IF Cat = 1 THEN VarLits1 ELSE VarLits2
+NNPos == IF Cat = 1 THEN NNPos1 ELSE NNPos2
+ProdTypes == IF Cat = 1 THEN ProdTypes1 ELSE ProdTypes2
+Multis == IF Cat = 1 THEN Multis1 ELSE Multis2
+Hosts == IF Cat = 1 THEN Hosts1 ELSE Hosts2
+DupTypes == IF Cat = 1 THEN DupTypes1 ELSE DupTypes2
 ASSUME Len(VarTypes) = Len(VarLits)
 NTypes == Len(VarTypes)
-\* nullable variable with a default used at a Non-Null argument position (allowed by "Variables Are In Allowed Positions")
-NNPos == {1, 8, 10, 24}
-\* product menus (every field in {absent, null, good, bad})
-ProdTypes == IF Wide THEN {24, 27, 29, 30} ELSE {24}
-\* two-variable operations: indexes into VarTypes, and the names of the two variables.  The engine renames variables
-\* to canonical names (a, b, ... in order of use): "b","a" swap their names under that renaming.
-Pairs == << <<2, 4>>, <<25, 11>>, <<9, 2>> >>
-PairNames == << <<"b", "a">>, <<"zeta", "alpha">>, <<"b", "a">> >>
 \* the undeclared variable of the "extra" cases carries the canonical name the declared variable x is renamed to
 ExtraName == "a"
 
@@ -126,7 +187,14 @@ DelField(o, name) == VObjE(SelectSeq(o.e, LAMBDA p : p.k # name))
 SetOrDel(o, name, val) == IF val.t = "x" THEN DelField(o, name) ELSE SetField(o, name, val)
 
 \* ---------------------------------------------------------------- menus
-KindMenu == {VNull, VBool, VInt, VBig, VFrac, VStr("any"), VStr("EVA"), VStr("EVHID"), EmptyObj, VList(<<VInt>>)}
+KindMenu == {VNull, VBool, VInt, VBig, VFrac, VStr("any"), VStr("EVA"), VStr("EVHID"), EmptyObj, VList(<<VInt>>),
+             VNum("1.0"), VNum("1e10")}
+\* further spellings, used at the top level of the scalar variable types ("1e400" not for ID, see GQLCoerce)
+Spellings(T) == LET b == Unwrap(T) IN
+                IF b.k = "named" /\ b.n \in {"Int", "Float", "ID"}
+                THEN {VNum("1e2"), VNum("-0"), VNum("100E-2"), VNum("1.5e1"), VNum("2147483648.0")}
+                     \cup (IF b.n = "ID" THEN {} ELSE {VNum("1e400"), VNum("-1e400")})
+                ELSE {}
 SmallMenu == {VNull, VBool, VInt, VFrac, VStr("any"), VStr("EVA"), VStr("EVHID")}
 NonObjects(T) == {VNull, VBool, VInt, VStr("any"), VList(<<>>), VList(<<Good(T)>>)}
 
@@ -172,18 +240,34 @@ ProdEntries(fs, j) ==
        rest \cup {<<Entry(fs[j].name, a)>> \o r : a \in {VNull, Good(fs[j].type), Bad(fs[j].type)}, r \in rest}
 Prod(T) == {VObjE(e) : e \in ProdEntries(Def(T).fields, 1)}
 
-TopMenu(i) == Menu(VarTypes[i], D) \cup (IF i \in ProdTypes THEN Prod(IF VarTypes[i].k = "nn" THEN VarTypes[i].of ELSE VarTypes[i]) ELSE {})
+\* objects with a duplicate name: one occurrence good, one bad, in both orders (first field of the type)
+DupObjs(T) == LET b == Unwrap(T)
+                  bb == IF b.k = "list" THEN Unwrap(b.of) ELSE b
+                  f == Def(bb).fields[1]
+                  base == Full(bb, 1)
+                  base2 == DelField(base, f.name)
+                  objs == {VObjE(<<Entry(f.name, Good(f.type)), Entry(f.name, Bad(f.type))>> \o base2.e),
+                           VObjE(<<Entry(f.name, Bad(f.type)), Entry(f.name, Good(f.type))>> \o base2.e),
+                           VObjE(base2.e \o <<Entry(f.name, Bad(f.type)), Entry(f.name, Good(f.type))>>)} IN
+              IF b.k = "list" THEN {VList(<<o>>) : o \in objs} ELSE objs
+TopMenu(i) == Menu(VarTypes[i], D) \cup Spellings(VarTypes[i]) \cup (IF i \in DupTypes THEN DupObjs(VarTypes[i]) ELSE {})
+              \cup (IF i \in ProdTypes THEN Prod(IF VarTypes[i].k = "nn" THEN VarTypes[i].of ELSE VarTypes[i]) ELSE {})
 
 \* ---------------------------------------------------------------- cases
-\* case = [vm, pos, extra, vars |-> <<[name, tix, dm, val]>>]
+\* case = [cat, vm, pos, host, extra, dupv, dupfirst, vars |-> <<[name, tix, dm, val]>>]
+\*   host  0, or index into Hosts when pos = "host" (the variable is used inside an argument literal)
+\*   dupv  Absent, or the value of a second occurrence of the first variable's name in the variables object (before the
+\*         first one if dupfirst)
 \*   vm    "obj": "variables" is an object holding the non-absent vals (plus an undeclared one if extra)
 \*         "none": the request has no "variables" member      "null": "variables": null
 \*   pos   "same": the variable is used at an argument of its own type      "nn": at an argument of type T!
 \*   dm    "none" | "def": the variable definition carries the default VarLits[tix]
 OpOf(c) == [i \in 1..Len(c.vars) |-> [name |-> c.vars[i].name, type |-> VarTypes[c.vars[i].tix], def |-> c.vars[i].dm = "def"]]
 PresentEntries(c) ==
-  LET pres == SelectSeq(c.vars, LAMBDA e : e.val.t # "x") IN
-  [j \in 1..Len(pres) |-> Entry(pres[j].name, pres[j].val)] \o (IF c.extra THEN <<Entry(ExtraName, VStr("any"))>> ELSE <<>>)
+  LET pres == SelectSeq(c.vars, LAMBDA e : e.val.t # "x")
+      main == [j \in 1..Len(pres) |-> Entry(pres[j].name, pres[j].val)]
+      dup == IF c.dupv.t = "x" THEN <<>> ELSE <<Entry(c.vars[1].name, c.dupv)>> IN    \* a second occurrence of the first variable's name
+  (IF c.dupfirst THEN dup \o main ELSE main \o dup) \o (IF c.extra THEN <<Entry(ExtraName, VStr("any"))>> ELSE <<>>)
 VarsOf(c) == IF c.vm = "none" THEN Absent ELSE IF c.vm = "null" THEN VNull ELSE VObjE(PresentEntries(c))
 Expected(c) == AcceptVars(Catalog, OpOf(c), VarsOf(c))
 ExpectedErrs(c) == ErrPath(Catalog, OpOf(c), VarsOf(c))
